@@ -1115,6 +1115,12 @@ class Engine:
         return out
 
     def bmeth(s, base, attr, st, args, ctx, node, kw=None):
+        if isinstance(base, SBytes) and attr in ("startswith", "endswith") and len(args) == 1 and (isinstance(args[0], (bytes, bytearray)) or (isinstance(args[0], SBytes) and z3.is_int_value(z3.simplify(args[0].n)))):
+            # bytes.startswith / endswith with an operand of known length: length test and octet-wise equality
+            pre = args[0]; k = len(pre) if isinstance(pre, (bytes, bytearray)) else z3.simplify(pre.n).as_long()
+            pat = (lambda i: z3.BitVecVal(pre[i], 8)) if isinstance(pre, (bytes, bytearray)) else (lambda i: pre.at(i))
+            at = (lambda i: base.at(i)) if attr == "startswith" else (lambda i: base.at(base.n - k + i))
+            return [(st, SBool(z3.And(base.n >= k, *[at(i) == pat(i) for i in range(k)])))]
         if isinstance(base, (list, GhostList)) and attr == "append":
             hook = getattr(s, "list_append_hook", None)
             if hook is not None: hook(st, base, args[0], ctx, node)
@@ -1179,7 +1185,7 @@ class Engine:
             return outs
         h = s.prelude_methods.get(attr)
         if h is not None: return h(s, st, base, args, ctx, node)
-        raise Unsupported(f"method {attr} line {node.lineno}")
+        raise Unsupported(f"method {attr} line {node.lineno} on {type(base).__name__}({', '.join(type(a).__name__ for a in args)})")
 
     def comprehension(s, e, st, ctx):
         """[elt for x in <concrete list> if <concretely decidable cond>] evaluated eagerly (also for generator expressions)"""
